@@ -50,18 +50,27 @@ def cases(tier: str) -> list[dict[str, Any]]:
     return cs
 
 
+def _unprefix(s: str) -> list[str]:
+    import re
+
+    return [re.sub(r"^[ >]+", "", x) for x in s.split("\n")]
+
+
 def diff_kind(a: str, b: str) -> str:
-    """normal form of how pass 2 differs from pass 1"""
+    """normal form of how two outputs differ (container prefixes at line starts are ignored)"""
+    import re
+
     la, lb = a.split("\n"), b.split("\n")
     if [x.rstrip() for x in la] == [x.rstrip() for x in lb]:
         return "trailing-space"
     if [x.rstrip() for x in la if x.strip(" >")] == [x.rstrip() for x in lb if x.strip(" >")]:
         return "blank-lines"
-    if [" ".join(x.split(" ")) for x in la] == [" ".join(x.split(" ")) for x in lb] or [__import__("re").sub(" +", " ", x) for x in la] == [__import__("re").sub(" +", " ", x) for x in lb]:
+    if [re.sub(" +", " ", x) for x in la] == [re.sub(" +", " ", x) for x in lb]:
         return "space-runs"
-    if a.split() == b.split():
+    wa, wb = " ".join(_unprefix(a)).split(), " ".join(_unprefix(b)).split()
+    if wa == wb:
         return "rebreak"
-    if a.replace("\\", "").split() == b.replace("\\", "").split():
+    if [w.replace("\\", "") for w in wa] == [w.replace("\\", "") for w in wb]:
         return "escape"
     return "content"
 
@@ -91,7 +100,10 @@ def run(env: Any, case: dict[str, Any]) -> Any:
 
 def key_fn(case: dict[str, Any], label: str, item: dict[str, Any], conc: dict[str, Any]) -> str:
     mode = "plaintext" if case.get("plaintext") else ""
-    return f"{DOCS.special_key(case)}{mode}/{label}"
+    cls = DOCS.finding_class(case)
+    if cls == "first-word-alone":
+        label = "idempotent"  # pass 2 re-reads the block the lone word turned into
+    return f"{cls}{mode}/{label}"
 
 
 def what_fn(case: dict[str, Any], label: str, item: dict[str, Any], conc: dict[str, Any]) -> str:
